@@ -284,3 +284,11 @@ package sweep
 //@   site call Store: assert arg(1) == ret(Height)
 //@   site call processRecords: assert called(Store, 0) && called(Height, 0)
 //@   loop 0 step called(Height, 0) ==> called(Store, 0) && called(processRecords, 0)
+//@
+//@ // ---- across attempts the offered rate never decreases: the starting rate recorded for an input after a failed attempt is only ever
+//@ // ---- raised - a failure that never got as far as a fee rate (rate 0) does not erase the rate the input was already offered at (finding F42)
+//@ func (s *UtxoSweeper) markInputsPublishFailed
+//@   props C18
+//@   loop * havoc
+//@   site store Params.StartingFeeRate: assert value.isSome && value.some == feeRate && feeRate >= ret(UnwrapOr)
+//@   site store SweeperInput.state: assert value == PublishFailed && (state == PendingPublish || state == Published)
